@@ -1035,6 +1035,7 @@ func (e *Engine) filterFileToBackup(r *TSMReader, fi os.FileInfo, shardRelativeP
 	// implicit else: here we iterate over the blocks and only keep the ones we really want.
 	bi := r.BlockIterator()
 
+	kept := 0
 	for bi.Next() {
 		// not concerned with typ or checksum since we are just blindly writing back, with no decoding
 		key, minTime, maxTime, _, _, buf, err := bi.Read()
@@ -1048,11 +1049,17 @@ func (e *Engine) filterFileToBackup(r *TSMReader, fi os.FileInfo, shardRelativeP
 			if err != nil {
 				return err
 			}
+			kept++
 		}
 	}
 
 	if err := bi.Err(); err != nil {
 		return err
+	}
+
+	// The file spans the window but has no block in it: there is nothing to export.
+	if kept == 0 {
+		return nil
 	}
 
 	err = w.WriteIndex()
